@@ -68,6 +68,7 @@ def attach_db(ls, rec, p_refuse=0.05, p_commit=0.3, p_sweep=0.3,
     ls.fault_conn = conn
     ls.p_refuse = p_refuse
     ls.p_loadfail = p_loadfail
+    ls.p_regfail = 0.08
     state = {'stop': False}
     impl = ls.impl
 
@@ -131,6 +132,9 @@ class LockStep:
         # ... and whose setstate() may be made to refuse the n-th load of a
         # single-key call made right after a cache sweep
         self.p_loadfail = 0.0
+        # ... or refuse to register a pure-Python leaf (the step commits
+        # first, so only checks that keep no books on commits switch it on)
+        self.p_regfail = 0.0
         # node-size limits hold for containers filled through the API; an
         # insert whose split was cut short by a refused load legitimately
         # leaves an over-full node behind (then the limits are off)
@@ -202,6 +206,22 @@ class LockStep:
         loadfail = (not refuse and self.fault_conn is not None and
                     self.p_loadfail and op in SINGLE_KEY_OPS and
                     self.rng.random() < self.p_loadfail)
+        # the data manager refuses to take the node into its transaction
+        # (register() raises).  Only where the unchanged code is clean: a
+        # pure-Python Bucket / Set announces the change BEFORE it makes it
+        # (the C leaves and every tree make it first: DESIGN section 8)
+        regfail = (not refuse and not loadfail and
+                   self.fault_conn is not None and not self.is_tree and
+                   self.impl == 'py' and op in SINGLE_KEY_OPS and
+                   op in MUTATING_OPS and
+                   getattr(self.fault_conn, 'fail_register', None) == 0 and
+                   self.rng.random() < self.p_regfail)
+        if regfail:
+            try:
+                self.fault_conn.commit()    # (so that the call has to register)
+                self.fault_conn.fail_register = 1
+            except Exception:
+                regfail = False
         if refuse:
             self.fault_conn.fail_read_current = 1
         if loadfail:
@@ -216,6 +236,24 @@ class LockStep:
                 self.fault_conn.fail_read_current = 0
             if loadfail:
                 self.fault_conn.fail_setstate = 0
+            if regfail:
+                self.fault_conn.fail_register = 0
+        if regfail and ro[0] == 'exc' and ro[1] == 'DMBoom':
+            rec.evaluations += 1
+            rec.ev(self.impl + ':registration-refused')
+            try:
+                got = harness.contents(self.c, self.is_mapping)
+            except Exception as e:
+                self.violation('contents-raised', op=op, args=brief(args),
+                               detail='%s: %s' % (type(e).__name__, e))
+                return False
+            if not eq(got, self._pre_contents):
+                self.violation('refused-call-changed-contents', op=op,
+                               args=brief(args), observed=brief(got, 300),
+                               expected=brief(self._pre_contents, 300),
+                               fault='register() refused')
+                return False
+            return True
         if loadfail and ro[0] == 'exc' and ro[1] == 'DMBoom':
             return self._after_refused_load(op, args, rargs, margs, before)
         if refuse and ro[0] == 'exc' and ro[1] == 'DMBoom':
